@@ -208,7 +208,7 @@ static HANG_REPORTED: std::sync::atomic::AtomicBool = std::sync::atomic::AtomicB
 
 /// a verification run over a link directory seeded with hostile files
 fn hostile_dir_case(sink: &mut Sink, r: &mut Rng, pool: &[KeyInfo], forced: Option<&str>) {
-    let mut g = e2e::Gen { r, pool, insp_counter: 0, force_delegate: false, multi_party: false, co_delegate: false, now: e2e::base_now(), reuse_keys: vec![], inner_insp_always: false };
+    let mut g = e2e::Gen { r, pool, insp_counter: 0, force_delegate: false, multi_party: false, co_delegate: false, now: e2e::base_now(), reuse_keys: vec![], inner_insp_always: false, same_material_pair: false };
     let mut s = g.valid(1, false);
     // half of the time the scenario itself is faulty in one of the catalogued ways (threshold 0 with no
     // evidence, missing / unauthorized links, expired or tampered sub-layouts, ...): unusual but
@@ -597,6 +597,7 @@ pub fn run(cfg: &Cfg) {
     der_seeds.push(pem::encode(&pem::Pem::new("PUBLIC KEY", std::fs::read(keys_dir().join("ec.spki.der")).unwrap())).into_bytes());
     let n = if cfg.thorough { 12_000 } else { 700 };
     for i in 0..n {
+        let mut r = r.at(i as u64);
         let input = match i % 5 {
             0 => {
                 let k = r.below(64);
